@@ -538,8 +538,11 @@ class CodeGenerator(NodeVisitor):
         # if any of the given keyword arguments is a python keyword
         # we have to make sure that no invalid call is created.
         # (``__debug__`` is no keyword but can't be assigned to either.)
+        # A name that is not ASCII goes the same way: python normalizes
+        # identifiers (NFKC), two different template names could become
+        # the same keyword, or one of the names above.
         kwarg_workaround = any(
-            is_python_keyword(t.cast(str, k)) or k == "__debug__"
+            is_python_keyword(t.cast(str, k)) or k == "__debug__" or not k.isascii()
             for k in chain((x.key for x in node.kwargs), extra_kwargs or ())
         )
 
